@@ -91,7 +91,8 @@ PROPS = {
         "for all magnitudes; the underflow assertions of sub2/sub2rev are mandatory in release builds, test both the final borrow and the subtrahend's high "
         "digits and see all digits of the subtrahend; checked_sub returns None exactly on Less and subtracts only on Greater; no call site drops the "
         "carry/borrow returned by __add2, adc, sbb or __sub2rev; results escape in canonical form; no digit count is truncated by a cast.",
-        "technique": T_R2 + "; " + T_R3,
+        "technique": "MIR dataflow over operator impls (forwarder classification, operand provenance); CFG dominance of the mandatory assertions in dev and release; "
+        "inline-asm template data-flow analysis; abstract interpretation over the sign domain with polynomial result terms",
     },
     "C02": {
         "clauses": [fam("Mul"), signed("Mul"), both(r3.check_underflow_asserts), r3.check_add2_carry_used, r8.check_cost_general, r8.check_shorter_first, r5check.check_arithmetic({"Mul"}, 15), count_ok("biguint/multiplication.rs", "bigint/multiplication.rs", floor=40), r1.check_biguint_normal_form],
@@ -101,7 +102,8 @@ PROPS = {
         "checked for all magnitudes; the carry-overflow assertion of mac_digit is mandatory in release builds and tests the carry returned by __add2; no call "
         "site drops a carry; the regime dispatch read from mac3 has a base case, passes the shorter operand first and yields a cost recurrence inside the "
         "documented bounds; the multiplication never reaches the multi-digit division; results escape in canonical form.",
-        "technique": T_R2 + "; " + T_R3 + "; regime extraction from mac3",
+        "technique": "MIR dataflow over operator impls; CFG dominance of the carry assertion; regime/recurrence extraction from mac3 (dominance regions + call-graph "
+        "reachability); abstract interpretation over the sign domain",
     },
     "C03": {
         "clauses": [fam("Div", "Rem"), signed("Div", "Rem"), both(r3.check_div_guards), r3.check_checked_div, r3.check_division_sites, r5check.check_arithmetic({"Div", "Rem"}, 30), r5check.check_division_methods, count_ok("biguint/division.rs", "bigint/division.rs", floor=90), r1.check_biguint_normal_form],
@@ -112,7 +114,8 @@ PROPS = {
         "value; and - given exact magnitude division - the truncated, floored and Euclidean conventions (div_rem, div_floor, mod_floor, div_mod_floor, "
         "div_euclid, rem_euclid, div_ceil and the checked forms) return the mathematically defined quotient/remainder terms in every sign/zero/remainder case "
         "(abstract interpretation, polynomial normal form).",
-        "technique": T_R3 + "; " + T_R2,
+        "technique": "guard-or-forward CFG dominance analysis over the division family in dev and release; divisor non-zero provenance at call sites; abstract "
+        "interpretation over the sign domain with polynomial quotient/remainder terms compared with the definitions",
     },
     "C05": {
         "clauses": [guards("modulus", "exponent"), r3.check_parity_dispatch, r3.check_residue_complement, r3.check_division_sites, r3.check_add2_carry_used, both(r3.check_underflow_asserts), r1.check_biguint_normal_form, r5check.check_modular, count_ok("biguint/monty.rs", "biguint/power.rs", "bigint/power.rs", "biguint.rs", "bigint.rs", floor=100)],
@@ -123,7 +126,8 @@ PROPS = {
         "defect for |modulus| = 1); reductions divide by the guarded modulus; BigInt::modpow/modinv place the result in the documented interval in every sign "
         "case given an exact unsigned modpow/modinv (abstract interpretation); monty_modpow's result is normalised before it is compared or returned; no "
         "carry/borrow is dropped and no digit count is truncated in the modular code.",
-        "technique": T_R3,
+        "technique": "CFG dominance of guards in dev and release, parity-dispatch and residue-complement rules over MIR; abstract interpretation of the BigInt wrappers over "
+        "the sign domain; must-pass-through canonicalisation analysis",
     },
     "C06": {
         "clauses": [both(r3.check_radix), r3.check_parse_validation_order, r7.check_bases, r7.check_formatters, r9.check_sign_readers, r1.check_biguint_normal_form, count_ok("biguint/convert.rs", "bigint/convert.rs", floor=100)],
@@ -144,7 +148,8 @@ PROPS = {
         "amount); every shift/bit operator form is a verified forwarder or a reviewed implementation; for all 72 BigInt shift leaves the result is sign * (|a| "
         "<< k) resp. floor semantics via shr_round_down (interpreted, including the default for amounts that do not fit u64) in every sign case; the BigInt "
         "bit-operator leaves give the result the sign that the operator yields on the operands' sign bits, handle zero operands and return canonical values.",
-        "technique": T_R3 + "; " + T_R2,
+        "technique": "CFG dominance of the negative-shift guard (dev and release); operator forwarder classification; abstract interpretation over the sign domain of all "
+        "shift leaves and the bit-operator leaves",
     },
     "C04": {
         "clauses": [r1.check_closed_world, r1.check_biguint_normal_form, r1.check_normalize_body, r7.check_serde_tables, r9.check_eq_ord_hash, r9.check_sign_readers, r5check.check_helpers, r5check.check_constructors, r5check.check_shifts],
@@ -163,8 +168,9 @@ PROPS = {
         "not_decided": "digit accumulation / overflow position in BigUint::to_uN, high_bits_to_u64 and float rounding (ties-to-even, infinity cut-off), from_f64's shift arithmetic, two's-complement magnitude arithmetic of From<iN>",
         "level_text": "Decides the sign-gate and ownership clauses for every input: BigInt::to_{i64,i128,u64,u128} return Some(a) exactly when a fits, including the MIN edge "
         "(|a| compared with 2^63 / 2^127 read from MIR), negative -> None for unsigned targets, zero -> Some(0); BigUint::from_iN rejects negatives; "
-        "TryFrom<BigInt> for BigUint and all 24 by-value TryFrom impls for primitives hand the original value back in the error; BigUint::from_f64 "
-        "rejects NaN/infinities before decoding and negative values after.",
+        "TryFrom<BigInt> for BigUint and all 24 by-value TryFrom impls for primitives hand the original value back in the error; BigUint::from_f64 rejects "
+        "NaN/infinities before decoding and negative values after; no conversion casts its primitive input to a narrower integer type or through a saturating "
+        "float cast.",
         "technique": "abstract interpretation over the sign domain (R5) + MIR def-use checks of the error closures + guard dominance",
     },
     "C09": {
@@ -179,32 +185,39 @@ PROPS = {
     "C10": {
         "clauses": [_c10_forwarders, _c10_signed, _c10_folds, _no_narrowing, r3.check_panic_site_table, both(r3.check_underflow_asserts), r3.check_add2_carry_used, r5check.check_arithmetic(None, 85), r5check.check_powers, r5check.check_upow],
         "not_decided": "digit splitting/padding inside the unsigned scalar leaves and the digit arithmetic of the leaf implementations",
-        "level_text": "Every one of the ~1286 operator impl bodies is classified from its MIR: ~970 are proven pure forwarders (operands reach the "
-        "callee in order - swapped only for commutative operators -, scalar promotions are value-preserving casts, the callee's result is the result, "
-        "the forwarding graph is acyclic and ends in an implementation); the ~310 implementations are compared with a reviewed table; signed scalar "
-        "leaves must work on the unsigned magnitude; Sum/Product are folds of add/mul from ZERO/one(). This is a for-all-inputs argument for the "
-        "forwarding layer, which is what the property is about; tests sample a handful of the forms.",
-        "technique": T_R2,
+        "level_text": "Every one of the ~1286 operator impl bodies is classified from its MIR: ~970 are proven pure forwarders (operands reach the callee in order - swapped "
+        "only for commutative operators -, scalar promotions are value-preserving casts, the callee's result is the result, the forwarding graph is acyclic and "
+        "ends in an implementation); the ~310 implementations are compared with a reviewed table, and 88 of them (the signed ones) are interpreted abstractly: "
+        "in every sign/zero/order case the result term equals the operator applied to the operands; signed scalar leaves work on the unsigned magnitude; no "
+        "operand is narrowed; Sum/Product are folds of add/mul from ZERO/one(). This is a for-all-inputs argument for the forwarding layer, which is what the "
+        "property is about; tests sample a handful of the forms.",
+        "technique": "MIR dataflow over operator impls (forwarder classification, operand provenance, cast losslessness, forwarding-graph acyclicity, reviewed leaf table) + "
+        "abstract interpretation of the signed leaves over the sign domain",
     },
     "C11": {
         "clauses": [guards("root"), r6.check_cfg_taint, r3.check_division_sites, r5check.check_roots, r10.check_fixpoint_invariant, count_ok("biguint.rs", "bigint.rs", floor=100), r1.check_biguint_normal_form],
         "not_decided": "Newton convergence (assumed: fixpoint reaches the floor root from any guess), the u64 fast path, float guesses",
-        "level_text": "Decides: n > 0 (zeroth root) and the imaginary-root assertions (negative with even degree, sqrt of a negative) are mandatory in release builds, "
-        "test the right operands and dominate every return; the std/no_std difference in nth_root/sqrt/cbrt is confined to the initial guess passed to "
-        "fixpoint (cfg-taint over the two builds' MIR), so the results cannot depend on the availability of floats given Newton convergence.",
+        "level_text": "Decides: n > 0 (zeroth root) and the imaginary-root assertions (negative with even degree, sqrt of a negative) are mandatory in release builds, test "
+        "the right operands and dominate every return; BigInt roots carry the operand's sign; the std/no_std difference in nth_root/sqrt/cbrt is confined to "
+        "the initial guess passed to fixpoint (cfg-taint over the two builds' MIR), and the Newton driver recomputes the candidate after every update of the "
+        "iterate, so the results cannot depend on the availability of floats given Newton convergence.",
         "technique": T_R3 + "; cross-configuration MIR diff with forward taint (cfg-taint)",
     },
     "C12": {
         "clauses": [fam("Pow"), _no_narrowing, r5check.check_powers, r5check.check_upow, count_ok("biguint/power.rs", "bigint/power.rs", floor=30), r1.check_biguint_normal_form],
-        "not_decided": "square-and-multiply arithmetic; 0^0 decision order of the BigUint exponent form",
-        "level_text": "Decides: all Pow operator forms (by value / by reference, every exponent type) are verified forwarders or reviewed implementations.",
-        "technique": T_R2,
+        "not_decided": "the square-and-multiply arithmetic itself",
+        "level_text": "Decides: all Pow operator forms (by value / by reference, every exponent type) are verified forwarders or reviewed implementations that do not narrow "
+        "the exponent; BigInt::pow gives the result the sign (-1)^e for negative bases in all 29 forms and canonical zero; the BigUint^BigUint form decides 0^0 "
+        "= 1, 0^e = 0, 1^e = 1 and the panic for exponents that do not fit before any multiplication (abstract interpretation with an oracle-side case split).",
+        "technique": "MIR dataflow over operator impls + abstract interpretation over the sign/parity domain",
     },
     "C13": {
         "clauses": [r3.check_division_sites, r3.check_gcd_zero_cases, r5check.check_helpers, count_ok("biguint.rs", "bigint.rs", floor=100), r1.check_biguint_normal_form],
-        "not_decided": "Stein's algorithm, extended_gcd (num-integer), arithmetic of the multiple-of helpers",
-        "level_text": "Decides: lcm / gcd_lcm / extended_gcd_lcm divide only by a gcd shown non-zero by a dominating test (own zero test, or the joint zero test of exactly the "
-        "gcd's two arguments); is_multiple_of takes the remainder only behind other != 0 and answers self == 0 otherwise.",
+        "not_decided": "Stein's algorithm (common power of two, subtraction loop), extended_gcd (num-integer), arithmetic of the multiple-of helpers",
+        "level_text": "Decides: gcd returns the other operand when one is zero before Stein's loop; lcm / gcd_lcm / extended_gcd_lcm divide only by a gcd shown non-zero by a "
+        "dominating test (own zero test, or the joint zero test of exactly the gcd's two arguments); is_multiple_of takes the remainder only behind other != 0 "
+        "and answers self == 0 otherwise; the BigInt wrappers (gcd, lcm, is_multiple_of, divides, is_even/is_odd, next/prev multiple) take magnitudes and signs "
+        "as defined.",
         "technique": T_R3,
     },
     "C14": {
@@ -282,8 +295,9 @@ PROPS = {
         "not_decided": "the distribution itself; big-endian word swapping (not compiled on this target); RNG quality",
         "level_text": "Decides: zero bound / empty / inverted range assertions are mandatory and compare the right operands with the right strictness; gen_biguint_below is a "
         "first-candidate rejection loop (bits = bound.bits(), strict <, candidate returned unchanged), hence every value of the range has equally many "
-        "pre-images; gen_bigint re-draws zero on one outcome of a fresh bool and picks the sign by another; RandomBits and the Uniform samplers delegate "
-        "with the right terms (base + below(high - low), inclusive = high + 1).",
+        "pre-images; gen_bigint re-draws zero on one outcome of a fresh bool and picks the sign by another; RandomBits and the Uniform samplers delegate with "
+        "the right terms (base + below(high - low), inclusive = high + 1); gen_biguint's buffer lengths and the remainder handed to gen_bits are the right "
+        "functions of bit_size (evaluated for 0..4096) and gen_bits masks only the last word.",
         "technique": T_R3 + "; CFG/loop-structure and argument-provenance analysis of the samplers",
     },
 }
